@@ -7,6 +7,31 @@ use std::panic::{catch_unwind, AssertUnwindSafe};
 
 thread_local! {
     static DEPTH: Cell<u32> = const { Cell::new(0) };
+    /// Source location and message of the last panic outside a `catch`.
+    static LAST: std::cell::RefCell<Option<(String, String)>> = const { std::cell::RefCell::new(None) };
+}
+
+/// Runs one case evaluation. A panic that escapes it from inside the crates
+/// under test - in a call the check treats as infallible - is a result about
+/// the library (`Err(description)`); a panic of the harness itself propagates.
+pub fn guard_case<R>(f: impl FnOnce() -> R) -> Result<R, String> {
+    LAST.with(|l| *l.borrow_mut() = None);
+    match catch_unwind(AssertUnwindSafe(f)) {
+        Ok(r) => Ok(r),
+        Err(payload) => {
+            let last = LAST.with(|l| l.borrow_mut().take());
+            match last {
+                Some((loc, msg)) if is_library_path(&loc) => Err(format!("the library panicked in a call that the check expects not to panic: {loc}: {msg}")),
+                _ => std::panic::resume_unwind(payload),
+            }
+        }
+    }
+}
+
+/// True for source files of the crates under test (path dependencies below the
+/// repository root).
+fn is_library_path(loc: &str) -> bool {
+    ["multiboot2/src/", "multiboot2-common/src/", "multiboot2-header/src/"].iter().any(|p| loc.contains(p))
 }
 
 pub fn depth() -> u32 {
@@ -26,7 +51,13 @@ pub fn install_hook() {
     install_logger();
     std::panic::set_hook(Box::new(|info| {
         if depth() == 0 {
-            eprintln!("HARNESS PANIC: {info}");
+            let loc = info.location().map(|l| format!("{}:{}", l.file(), l.line())).unwrap_or_default();
+            let msg = info.payload().downcast_ref::<&str>().map(|s| s.to_string()).or_else(|| info.payload().downcast_ref::<String>().cloned()).unwrap_or_default();
+            let lib = is_library_path(&loc);
+            LAST.with(|l| *l.borrow_mut() = Some((loc, msg.lines().next().unwrap_or("").to_string())));
+            if !lib {
+                eprintln!("HARNESS PANIC: {info}");
+            }
         }
     }));
 }
